@@ -5,9 +5,29 @@ from .. import stages as S
 from . import core
 
 
+def lookalikes(rng, k):
+    """loads that invite a wrong identification: a user load equal to the bar's own-weight load
+    (global fy, whole span, -density x area) solved with -w; the same load written twice; two
+    bars carrying equal loads"""
+    from fractions import Fraction as Fr
+    out = []
+    for i in range(k):
+        s = G.gen_single_bar(rng) if i % 3 else G.gen_frame(rng, max_cells=1)
+        for b in s.bars[: 1 + i % 2]:
+            w = -s.mats[b["mat"]][0] * s.secs[b["sec"]][0]
+            s.loads.append({"kind": "d", "term": "fy", "local": False, "bar": b["id"], "t0": Fr(0), "v0": w, "t1": Fr(1), "v1": w})
+        if i % 2:
+            s.loads += [dict(l) for l in s.loads[:2]]
+        if len(s.bars) > 1 and s.loads:
+            s.loads.append(dict(s.loads[0], bar=s.bars[-1]["id"]))
+        s.meta = {"kind": "lookalike"}
+        out.append(core.case_from_struct(s, Weight=True, Repeat=1 + i % 2))
+    return out
+
+
 def gen(rng, tier):
     n1, n2 = (140, 25) if tier == "quick" else (3000, 400)
-    cases = []
+    cases = lookalikes(rng, 8 if tier == "quick" else 80)
     for i in range(n1):
         cases.append(core.case_from_struct(G.gen_single_bar(rng), Weight=core.weights(i), Repeat=1 + (i % 4 == 1) * 2))
     for i in range(n2):
@@ -36,10 +56,10 @@ SPEC = {
     "oracle": oracle,
     "corpus_opts": {"Repeat": 2},
     "stages": [("B", lambda c, o, rng: S.stageB_case(o, bool(c.get("Weight"))), S.stageB_v, 6, None),
-               ("R", lambda c, o, rng: S.stageB_case(o, bool(c.get("Weight"))), resultant_v, 10, 80)],
+               ("R", lambda c, o, rng: S.stageB_case(o, bool(c.get("Weight"))), resultant_v, 10, 50)],
     "nontrivial": lambda c, o: any((b.get("DL") or b.get("CL")) for b in o["Bars"]),
-    "rule": "as C15, plus 1-3 preprocessing calls on the same parsed structure; non-trivial iff some bar carries a load; every case goes through StructureModel, the exact resultant oracle "
-            "(sum of node torsors moved to the bar start vs closed-form resultant of the input loads; call k = call 1; input unchanged), the Coq evaluation of preprocess_bar (stage B) and, for 80 cases, "
+    "rule": "look-alike loads first (a user load equal to the own-weight load with -w, exact duplicates, equal loads on two bars); then as C15, plus 1-3 preprocessing calls on the same parsed structure; non-trivial iff some bar carries a load; every case goes through StructureModel, the exact resultant oracle "
+            "(sum of node torsors moved to the bar start vs closed-form resultant of the input loads; call k = call 1; input unchanged), the Coq evaluation of preprocess_bar (stage B) and, for 50 cases, "
             "the statement of C04_bar_equivalence evaluated in Coq (stage R)",
     "assumptions": ["inkgeom modelled as for C15; Node.DistanceTo between collinear nodes modelled as the projection c dx + s dy",
                     "oracle tolerance 1e-9 x sum of |terms|, plus 2e-10 L |F| on the moment (positions are identified up to 1e-10)"],
